@@ -265,8 +265,9 @@ PROPS = {
         "title": "Function entry/exit probes fire once per call on every normal path",
         "units": ["V8_lower"],
         "obligations": V8_BASE + ["V8_lower.resolve_function_entry.*", "V8_lower.fn:resolve_function_entry", "V8_lower.resolve_function_exit.*", "V8_lower.fn:resolve_function_exit",
-                                  "V8_lower.exit_wrapper.*", "V8_lower.fn:resolve_function_exit_with_block_wrapper"],
-        "glue": LOWER_GLUE, "design_ref": "DESIGN.md §5 C17-C20",
+                                  "V8_lower.exit_wrapper.*", "V8_lower.fn:resolve_function_exit_with_block_wrapper", "V8_lower.prepare_function_exit.*", "V8_lower.fn:Module::prepare_function_exit", "V8_lower.fn:Functions::get_type_id", "V8_lower.fn:Types::results"],
+        "glue": LOWER_GLUE + ["the preparation of the entry / exit code before the instruction loop is a region of resolve_special_instrumentation (R16); ModuleTypes::get / add_func_type and Function::get_type_id are assumed there with the clauses V6 / V7 prove"],
+        "design_ref": "DESIGN.md §5 C17-C20",
         "level_text": "Placement only: entry code goes in front of instruction 0 and is consumed; a copy of the exit code goes immediately before every return / return_call* / unreachable / throw*, and `end` + exit code before the function's final end (closing the wrapper block opened by the entry code) and is consumed; nothing else changes. Proved for all bodies and indices.",
     },
     "C18": {
@@ -303,8 +304,8 @@ PROPS = {
     },
     "C22": {
         "title": "Special-mode injections are never silently lost",
-        "units": ["V4_inject", "V4b_iter_inject", "V11_emit"],
-        "obligations": V11_EMIT + ["V4b_iter_inject.ModuleIterator.*", "V4b_iter_inject.fn:ModuleIterator as *", "V4b_iter_inject.ComponentIterator.*", "V4b_iter_inject.fn:ComponentIterator as *", "V4b_iter_inject.fn:Functions::get_mut"] + ["V4_inject.InstrumentationFlag.add_instr.*", "V4_inject.fn:InstrumentationFlag::add_instr", "V4_inject.is_block_style_op.*", "V4_inject.is_branching_op.*",
+        "units": ["V4_inject", "V4b_iter_inject", "V11_emit", "V8_lower"],
+        "obligations": V11_EMIT + ["V8_lower.prepare_function_exit.*", "V8_lower.fn:Module::prepare_function_exit", "V8_lower.fn:Functions::get_type_id", "V8_lower.fn:Types::results", "V4b_iter_inject.ModuleIterator.*", "V4b_iter_inject.fn:ModuleIterator as *", "V4b_iter_inject.ComponentIterator.*", "V4b_iter_inject.fn:ComponentIterator as *", "V4b_iter_inject.fn:Functions::get_mut"] + ["V4_inject.InstrumentationFlag.add_instr.*", "V4_inject.fn:InstrumentationFlag::add_instr", "V4_inject.is_block_style_op.*", "V4_inject.is_branching_op.*",
                         "V4_inject.fn:InstrumentationFlag::is_block_style_op", "V4_inject.fn:InstrumentationFlag::is_branching_op",
                         "V4_inject.FuncInstrFlag.*", "V4_inject.fn:FuncInstrFlag::add_instr", "V4_inject.fn:Instruction::add_instr",
                         "V4_inject.LocalFunction.*", "V4_inject.fn:LocalFunction::add_instr",
